@@ -72,7 +72,14 @@ Fixpoint ibox_eqb (a b : ibox) : bool :=
          | p :: l1, q :: l2 => ibox_eqb p q && go l1 l2
          | _, _ => false
          end) k k'
-  | A x w, A x' w' => Qeq_bool x x' && Qeq_bool w w'
+  | A x w k, A x' w' k' =>
+      Qeq_bool x x' && Qeq_bool w w' &&
+      (fix go (l l' : list ibox) : bool :=
+         match l, l' with
+         | [], [] => true
+         | p :: l1, q :: l2 => ibox_eqb p q && go l1 l2
+         | _, _ => false
+         end) k k'
   | F x w, F x' w' => Qeq_bool x x' && Qeq_bool w w'
   | _, _ => false
   end.
@@ -88,4 +95,6 @@ Definition align_judge (c : align_case) : nat :=
   let justified := match effective_b (align_of a) (align_last_of al) last with AJustify => true | _ => false end
                    && col && negb (Qle_bool avail w) && (0 <? count_spaces line)%nat in
   let b2 := if negb justified || Qeq_bool (box_w line_impl) avail then 0%nat else 4%nat in
-  (b0 + b1 + b2)%nat.
+  (* bit 3: a box laid out inside an atomic box of the line is no longer inside it after the call *)
+  let b3 := if negb (well_nested_b line) || well_nested_b line_impl then 0%nat else 8%nat in
+  (b0 + b1 + b2 + b3)%nat.
